@@ -1,6 +1,7 @@
 package main
 
 import (
+	"regexp"
 	"fmt"
 	"go/types"
 	"sort"
@@ -254,6 +255,9 @@ func checkPreTriggerLoop(w *World, r *Report, runs *motionRuns, rule string) {
 		for _, g := range gs {
 			if g.String() == wantGuard || g.If.Parent() != call.Parent() {
 				continue
+			}
+			if gsx := g.String(); strings.Contains(gsx, ".StartRecording(") && (strings.HasPrefix(gsx, "eq(") || strings.HasPrefix(gsx, "not(ne(")) && strings.Contains(gsx, "nil") {
+				continue // "the start succeeded": the history is written into the recording that was just opened
 			}
 			if !holdsForAllLengths(g, hist) {
 				extra = append(extra, g.String())
@@ -873,6 +877,8 @@ func propC04(w *World, r *Report) {
 	checkSettingsImmutable(w, r, "S7", "RecorderConfig:Window", "ThermalRecorder:MinDiskSpaceMB", "Windows", "Location", "Config:Recorder|MinDiskSpace|Motion", "ThermalMotion:TriggerFrames") // window and min-disk-space as configured
 }
 
+var statfsBase = regexp.MustCompile(`(syscall\.Statfs_t\.[A-Za-z]+)@[^*,() ]+`)
+
 // S5 / S6
 func checkDiskGate(w *World, r *Report) {
 	// S6 (start through the throttler): a refused start must reach the processor, or the throttler would open the file
@@ -999,6 +1005,7 @@ func checkDiskGate(w *World, r *Report) {
 	r.Check(dirOK, "S5", "the checked directory is the output directory (or a sub-folder of it)", w.InstrPos(helper), detail)
 	// the helper itself
 	he := newTermEnv(w)
+	he.valueHelpers = true // the statistics may be read and turned into megabytes by small helpers
 	hpaths, hcomplete := enumPaths(he, h, 64)
 	if !hcomplete {
 		r.Unknown("S5", "disk space helper "+h.Name(), w.Pos(h.Pos()), "helper has loops")
@@ -1021,8 +1028,10 @@ func checkDiskGate(w *World, r *Report) {
 			continue
 		}
 		okPaths++
-		want := "le(" + mbLeaf + ", div(div(syscall.Statfs_t.Bavail@alloc:syscall.Statfs_t*syscall.Statfs_t.Bsize@alloc:syscall.Statfs_t, 1024), 1024))"
-		r.Check(verdict.String() == want && errT == "nil", "S5", "disk helper: verdict is free MB >= minimum (non-strict), MB = Bavail*Bsize/1024/1024", w.InstrPos(p.Ret), verdict.String())
+		want := "le(" + mbLeaf + ", div(div(syscall.Statfs_t.Bavail@statfs*syscall.Statfs_t.Bsize@statfs, 1024), 1024))"
+		// the statistics structure may be a local or sit inside a small wrapper value: compared modulo where it lives
+		gotV := statfsBase.ReplaceAllString(verdict.String(), "$1@statfs")
+		r.Check(gotV == want && errT == "nil", "S5", "disk helper: verdict is free MB >= minimum (non-strict), MB = Bavail*Bsize/1024/1024", w.InstrPos(p.Ret), verdict.String())
 	}
 	r.Check(okPaths >= 1, "G4", "disk helper has a statfs-ok path", "-", fmt.Sprint(okPaths))
 	// provenance of MinDiskSpace from go-config
@@ -1723,9 +1732,9 @@ func checkRingSlotFilledByDeepCopy(w *World, r *Report, runs *motionRuns, rule s
 							}
 						}
 					case *ssa.Call:
-						if cl := x.Call.StaticCallee(); cl != nil && cl.Name() == "Copy" && cl.Signature.Recv() != nil && typeIs(cl.Signature.Recv().Type(), "github.com/TheCacophonyProject/go-cptv/cptvframe", "Frame") && x.Call.Args[0] == ssa.Value(cur) {
+						if cd, _, okc := frameCopyOf(x.Call.StaticCallee(), x.Call.Args, 0); okc && cd == ssa.Value(cur) {
 							fills++
-							r.Pass(rule, fn.Name()+": the ring slot is filled by a deep copy", w.InstrPos(x), "cptvframe.Frame.Copy")
+							r.Pass(rule, fn.Name()+": the ring slot is filled by a deep copy", w.InstrPos(x), "frame copy ("+x.Call.StaticCallee().Name()+")")
 						} else if x.Call.StaticCallee() == nil && !x.Call.IsInvoke() && len(x.Call.Args) >= 2 && x.Call.Args[1] == ssa.Value(cur) {
 							fills++
 							r.Pass(rule, fn.Name()+": the ring slot is filled by a deep copy", w.InstrPos(x), "frame parser")
